@@ -35,6 +35,8 @@ def fresh(name):
             shutil.copytree(s, os.path.join(d, f))
         elif os.path.exists(s):
             shutil.copy(s, d)
+    # fresh mtimes: the scratch copies share one cargo target dir
+    subprocess.run("find . -name '*.rs' -exec touch {} +", cwd=d, shell=True)
     return d
 
 
@@ -55,6 +57,7 @@ def main():
         r['demo_on_clean'] = 'pass' if 'test result: ok' in out else 'FAIL: ' + out[-300:]
         os.remove(os.path.join(d, 'tests', tname + '.rs'))
         rc, out = sh(f'git apply --unsafe-paths -p1 --directory={d} {os.path.join(src, diff)} 2>&1 || patch -p1 -d {d} < {os.path.join(src, diff)}', '/')
+        subprocess.run("find src -name '*.rs' -exec touch {} +", cwd=d, shell=True)
         r['applied'] = rc == 0
         if rc != 0:
             r['apply_output'] = out[-400:]
